@@ -312,7 +312,7 @@ func applyModel(model []rec, names []string, a fixAction) ([]rec, []string) {
 
 var fixUps = ev.Register(&ev.P[fixCase]{
 	Name: "fixups_reflected_exactly",
-	Rule: "stateful: the table is reset (hook), then a generated sequence of Fix calls — add records for days not in the table (before the first record, between records, after the last), replace (other name index / work flag / target), remove (~), remove-absent, replace the name list (also by a longer one, up to 14 names, whose indices from 10 on are written as the characters after '9') — one segment per day within one call; after EVERY call all views (by day, month, year, target) are compared with the map model updated by the same segments, so added, replaced and removed records are reflected exactly and all others are unchanged; non-trivial: the sequence adds a record earlier than the table's last record, or removes/replaces a record whose target groups several days",
+	Rule: "stateful: the table is reset (hook), then a generated sequence of Fix calls — add records for days not in the table (before the first record, between records, after the last), replace (other name index / work flag / target), remove (~), remove-absent, replace the name list (also by a longer one, up to 14 names, whose indices from 10 on are written as the characters after '9') — usually one segment per day within one call, sometimes two for the same day (they apply in order, the last one stands); after EVERY call all views (by day, month, year, target) are compared with the map model updated by the same segments, so added, replaced and removed records are reflected exactly and all others are unchanged; non-trivial: the sequence adds a record earlier than the table's last record, or removes/replaces a record whose target groups several days",
 	Check: func(c fixCase) error {
 		HolidayUtil.VerifReset()
 		defer HolidayUtil.VerifReset()
@@ -342,7 +342,14 @@ var fixUps = ev.Register(&ev.P[fixCase]{
 		var ls []string
 		nt := false
 		for _, a := range c.Actions {
+			seenDay := map[string]bool{}
 			for _, sg := range a.Segs {
+				if a.Kind != "names" && len(sg) > 8 {
+					if seenDay[sg[:8]] {
+						ls = append(ls, "sameDayTwiceInOneCall")
+					}
+					seenDay[sg[:8]] = true
+				}
 				if a.Kind != "names" && len(sg) > 8 && sg[8] > '9' && sg[8] != '~' {
 					ls = append(ls, "nameIndex10plus")
 				}
@@ -359,7 +366,7 @@ var fixUps = ev.Register(&ev.P[fixCase]{
 		}
 		return ls, nt
 	},
-	Require: []string{"action:add", "action:replace", "action:remove", "action:removeAbsent", "action:names", "addOutOfOrder", "nameIndex10plus"},
+	Require: []string{"action:add", "action:replace", "action:remove", "action:removeAbsent", "action:names", "addOutOfOrder", "nameIndex10plus", "sameDayTwiceInOneCall"},
 })
 
 // ------------------------------------------------------------------------------------------
@@ -610,6 +617,20 @@ func genFix(t *rapid.T) fixCase {
 				seg = fmt.Sprintf("%s%c%d%s", day, rune('0'+ni), rapid.IntRange(0, 1).Draw(t, "work"), tgt)
 			}
 			a.Segs = append(a.Segs, seg)
+			if (kind == "replace" || kind == "remove") && rapid.IntRange(0, 3).Draw(t, "again") == 0 {
+				// a second (never a third) segment for the same day in the same call, the first one addressing a record that
+				// exists: replace-replace, replace-remove, remove-re-add, remove-remove — the orders in which "apply in order,
+				// the last one stands" is the only reading (a removal of a record that the same call has only just queued
+				// for adding is left out: the statement does not say what that means)
+				switch rapid.IntRange(0, 2).Draw(t, "againKind") {
+				case 0:
+					a.Segs = append(a.Segs, fmt.Sprintf("%s%c%d%s", day, rune('0'+rapid.IntRange(0, nNames-1).Draw(t, "name2")), rapid.IntRange(0, 1).Draw(t, "work2"), day))
+				case 1:
+					a.Segs = append(a.Segs, day+"~"+"0"+day)
+				default:
+					a.Segs = append(a.Segs, fmt.Sprintf("%s%c%d%s", day, rune('0'+rapid.IntRange(0, nNames-1).Draw(t, "name3")), 1, fmt.Sprintf("%s0101", day[:4])))
+				}
+			}
 		}
 		if len(a.Segs) == 0 {
 			continue
